@@ -6,7 +6,7 @@
     cast_http_status, cast_transfer, cast_lambda, the lookup of a binding, of a declaration,
     the arity of concat, Uri::append on an empty path, an unexpected node) is unreachable. *)
 From Oal Require Import Tag Eval Typing.
-From Oal Require EvalProofs.
+From Oal Require EvalProofs Strat.
 From Coq Require Import Lia.
 Local Open Scope N_scope.
 
@@ -806,3 +806,120 @@ Lemma ex_well_typed :
   let E := mk_tenv [[TFunc [T BPrimitive] (T BObject); TFunc [T BPrimitive] (T BObject)]] [] in
   wt_progb E EvalProofs.ex_P EvalProofs.ex_rs = true /\ exists r, eval_program false EvalProofs.ex_P 50 EvalProofs.ex_rs = Ok r.
 Proof. cbv zeta. split; [vm_compute; reflexivity|]. eexists. vm_compute. reflexivity. Qed.
+
+(** * a well-typed program is lexically closed *)
+Lemma ctx_get_in x G t : ctx_get x G = Some t -> In x (map fst G).
+Proof.
+  unfold ctx_get. induction G as [|[k w] G IH]; cbn [im_get map fst In]; [discriminate|].
+  destruct (N.eqb_spec x k) as [->|_]; [left; reflexivity|intros H; right; apply IH, H].
+Qed.
+
+Lemma in_existsb x l : In x l -> existsb (N.eqb x) l = true.
+Proof. intros H. apply existsb_exists. exists x. split; [exact H|apply N.eqb_refl]. Qed.
+
+Lemma forallb_impl {A} (p q : A -> bool) l : (forall x, In x l -> p x = true -> q x = true) -> forallb p l = true -> forallb q l = true.
+Proof.
+  induction l as [|x l IH]; intros H Hp; [reflexivity|]. cbn [forallb] in *. apply andb_prop in Hp as [H1 H2].
+  rewrite (H x (or_introl eq_refl) H1). apply IH; [intros y Hy; apply H; right; exact Hy|exact H2].
+Qed.
+
+Lemma all2_forallb {A B} (f : A -> B -> bool) (q : A -> bool) : forall l1 l2,
+  (forall a b, In a l1 -> f a b = true -> q a = true) -> all2 f l1 l2 = true -> forallb q l1 = true.
+Proof.
+  induction l1 as [|a l1 IH]; intros [|b l2] H Hall; cbn [all2 forallb] in *; try reflexivity; try discriminate Hall.
+  apply andb_prop in Hall as [H1 H2]. rewrite (H a b (or_introl eq_refl) H1). apply (IH l2); [intros x y Hx; apply H; right; exact Hx|exact H2].
+Qed.
+
+Local Open Scope nat_scope.
+Lemma size_in_list {A} (f : A -> nat) l x : In x l -> f x <= fold_right (fun y acc => f y + acc) 0 l.
+Proof. induction l as [|y l IH]; intros []; cbn [fold_right]; [subst; lia|specialize (IH H); lia]. Qed.
+
+Lemma synth_closed_n E : forall n e, Strat.size e <= n -> forall G t, synth E G e = Some t -> closed (map fst G) e = true.
+Proof.
+  induction n as [|n IH]; intros e Hn G t H; [destruct e; cbn [Strat.size] in Hn; lia|].
+  (* every element of a list of sub-expressions that has a tag is closed *)
+  assert (Hlist : forall (p : expr -> bool) (l : list expr),
+            (forall o, In o l -> Strat.size o <= n) -> (forall o, p o = true -> exists t0, synth E G o = Some t0) ->
+            forallb p l = true -> forallb (closed (map fst G)) l = true).
+  { intros p l Hsz Hp. induction l as [|o l IHl]; [reflexivity|]. cbn [forallb]. intros Hall. apply andb_prop in Hall as [H1 H2].
+    destruct (Hp o H1) as [t0 Ht0]. rewrite (IH o (Hsz o (or_introl eq_refl)) G _ Ht0).
+    apply IHl; [intros x Hx; apply Hsz; right; exact Hx|exact H2]. }
+  destruct e; cbn [synth closed Strat.size] in *; try reflexivity.
+  - apply (IH e ltac:(lia) G t H).
+  - apply (IH e ltac:(lia) G t H).
+  - apply in_existsb. eapply ctx_get_in, H.
+  - (* EApp *)
+    destruct (synth E G e) as [[b|t'|bs r|v]|] eqn:Hf; try discriminate H.
+    destruct (all2 (fun a b => is_tag (synth E G a) b) args bs) eqn:Hall; [|discriminate H].
+    rewrite (IH e ltac:(lia) G _ Hf). cbn [andb].
+    apply (all2_forallb (fun a b => is_tag (synth E G a) b) (closed (map fst G)) args bs); [|exact Hall].
+    intros a b Hin Hab. apply is_tag_eq in Hab. pose proof (size_in_list Strat.size args a Hin). apply (IH a ltac:(lia) G _ Hab).
+  - (* ERec *)
+    destruct (rec_get E m i) as [t0|]; [|discriminate H].
+    destruct (is_schema_t t0 && negb (is_uri_t t0) && is_tag (synth E ((x, t0) :: G) e) t0) eqn:Hc; [|discriminate H].
+    apply andb_prop in Hc as [_ Hb]. apply is_tag_eq in Hb. exact (IH e ltac:(lia) ((x, t0) :: G) _ Hb).
+  - (* EObj *)
+    destruct (forallb (fun p => has is_property_t (synth E G p)) ps) eqn:Hps; [|discriminate H].
+    apply (Hlist (fun p => has is_property_t (synth E G p)) ps); [| |exact Hps].
+    + intros o Ho. pose proof (size_in_list Strat.size ps o Ho). lia.
+    + intros o Ho. apply has_some in Ho as (t0 & Ht0 & _). eauto.
+  - destruct (synth E G e) as [t0|] eqn:He; [|discriminate H]. apply (IH e ltac:(lia) G _ He).
+  - destruct (synth E G e) as [[|t0| |]|] eqn:He; try discriminate H. apply (IH e ltac:(lia) G _ He).
+  - destruct (has is_schema_t (synth E G e)) eqn:He; [|discriminate H]. apply has_some in He as (t0 & He & _). apply (IH e ltac:(lia) G _ He).
+  - (* EOp *)
+    assert (Hsz : forall o, In o es -> Strat.size o <= n) by (intros o Ho; pose proof (size_in_list Strat.size es o Ho); lia).
+    destruct op as [|[[p|p|]|[p|p|]|]]; cbn beta iota in H; try discriminate H.
+    + destruct (forallb (fun o => is_tag (synth E G o) (T BObject)) es) eqn:Hes; [|discriminate H].
+      apply (Hlist _ es Hsz (fun o Ho => ex_intro _ _ (is_tag_eq _ _ Ho)) Hes).
+    + destruct (forallb (fun o => has content_like_t (synth E G o)) es) eqn:Hes; [|discriminate H].
+      apply (Hlist (fun o => has content_like_t (synth E G o)) es Hsz); [|exact Hes]. intros o Ho. apply has_some in Ho as (t0 & Ht0 & _). eauto.
+    + destruct es as [|o1 es]; [discriminate H|]. destruct (synth E G o1) as [t0|] eqn:Ho1; [|discriminate H].
+      destruct (is_schema_t t0 && forallb (fun o => is_tag (synth E G o) t0) (o1 :: es)) eqn:Hes; [|discriminate H].
+      apply andb_prop in Hes as [_ Hes]. apply (Hlist _ (o1 :: es) Hsz (fun o Ho => ex_intro _ _ (is_tag_eq _ _ Ho)) Hes).
+    + destruct (forallb (fun o => has is_schema_t (synth E G o)) es) eqn:Hes; [|discriminate H].
+      apply (Hlist (fun o => has is_schema_t (synth E G o)) es Hsz); [|exact Hes]. intros o Ho. apply has_some in Ho as (t0 & Ht0 & _). eauto.
+  - (* ECont *)
+    match type of H with (if ?c1 && forallb ?f metas then _ else _) = _ => destruct c1 eqn:Hbody; [|discriminate H]; destruct (forallb f metas) eqn:Hms; [|discriminate H] end.
+    apply andb_true_intro. split.
+    + destruct body as [b|]; [|reflexivity]. apply has_some in Hbody as (t0 & Ht0 & _). apply (IH b ltac:(lia) G _ Ht0).
+    + assert (Hsz : forall k x, In (k, x) metas -> Strat.size x <= n).
+      { intros k x Hx. pose proof (size_in_list (fun ke : N * expr => match ke with (_, e') => Strat.size e' end) metas (k, x) Hx) as Hs. cbn beta iota in Hs. lia. }
+      clear H Hbody Hn. induction metas as [|[k rhs] metas IHm]; [reflexivity|]. cbn [forallb] in *. apply andb_prop in Hms as [H1 H2].
+      assert (exists t0, synth E G rhs = Some t0) as [t0 Ht0].
+      { destruct k as [|[[p|p|]|[p|p|]|]]; try discriminate H1; try (eexists; apply is_tag_eq, H1). apply has_some in H1 as (t0 & Ht0 & _). eauto. }
+      rewrite (IH rhs (Hsz k rhs (or_introl eq_refl)) G _ Ht0). apply IHm; [exact H2|intros k0 x Hx; apply (Hsz k0 x); right; exact Hx].
+  - (* EXfer *)
+    match type of H with (if ?c then _ else _) = _ => destruct c eqn:Hc; [|discriminate H] end.
+    apply andb_prop in Hc as [Hc Hprm]. apply andb_prop in Hc as [Hc Hrg]. apply andb_prop in Hc as [_ Hdom].
+    apply has_some in Hrg as (tr & Htr & _). rewrite (IH e ltac:(lia) G _ Htr).
+    assert (D : match domain with Some d => closed (map fst G) d | None => true end = true).
+    { destruct domain as [d|]; [|reflexivity]. apply has_some in Hdom as (t0 & Ht0 & _). apply (IH d ltac:(lia) G _ Ht0). }
+    assert (Pm : match params with Some p => closed (map fst G) p | None => true end = true).
+    { destruct params as [p|]; [|reflexivity]. apply is_tag_eq in Hprm. apply (IH p ltac:(lia) G _ Hprm). }
+    rewrite D, Pm. reflexivity.
+  - (* EUri *)
+    match type of H with (if ?c then _ else _) = _ => destruct c eqn:Hc; [|discriminate H] end.
+    apply andb_prop in Hc as [Hc Hprm]. apply andb_prop in Hc as [_ Hsegs].
+    apply andb_true_intro. split.
+    + assert (Hsz : forall v, In (inr v) segs -> Strat.size v <= n).
+      { intros v Hv. pose proof (size_in_list (fun sg : str + expr => match sg with inl _ => 0 | inr e' => Strat.size e' end) segs (inr v) Hv) as Hs. cbn beta iota in Hs. lia. }
+      clear H Hn. induction segs as [|[x|v] segs IHs]; [reflexivity| |]; cbn [forallb] in *; apply andb_prop in Hsegs as [H1 H2].
+      * apply IHs; [exact H2|intros v Hv; apply Hsz; right; exact Hv].
+      * apply is_tag_eq in H1. rewrite (IH v (Hsz v (or_introl eq_refl)) G _ H1). apply IHs; [exact H2|intros w Hw; apply Hsz; right; exact Hw].
+    + destruct params as [p|]; [|reflexivity]. apply is_tag_eq in Hprm. apply (IH p ltac:(lia) G _ Hprm).
+  - (* ERel *)
+    match type of H with (if ?c then _ else _) = _ => destruct c eqn:Hc; [|discriminate H] end.
+    apply andb_prop in Hc as [Hu Hxs]. apply is_tag_eq in Hu. rewrite (IH e ltac:(lia) G _ Hu). cbn [andb].
+    apply (Hlist (fun x => is_tag (synth E G x) (T BTransfer)) xfers); [|intros o Ho; exists (T BTransfer); apply is_tag_eq, Ho|exact Hxs].
+    intros o Ho. pose proof (size_in_list Strat.size xfers o Ho). lia.
+Qed.
+
+Lemma synth_closed E e G t : synth E G e = Some t -> closed (map fst G) e = true.
+Proof. apply (synth_closed_n E (Strat.size e) e (le_n _)). Qed.
+
+Lemma wt_resources_closed E P rs : wt_progb E P rs = true -> forallb (closed []) rs = true.
+Proof.
+  unfold wt_progb. intros H. apply andb_prop in H as [_ Hrs].
+  apply (forallb_impl (fun r => has relation_like_t (synth E [] r))); [|exact Hrs].
+  intros r _ Hr. apply has_some in Hr as (t & Ht & _). exact (synth_closed E r [] t Ht).
+Qed.
